@@ -1,7 +1,7 @@
 #!/bin/bash
 # run_all.sh [quick|thorough] — run every check registered in MANIFEST.json, print one status line each.
 TIER=${1:-quick}
-cd /verif || exit 2
+cd "$(dirname "$(readlink -f "$0")")/.." || exit 2
 for id in $(python3 -c "import json;print(' '.join(c['property_id'] for c in json.load(open('MANIFEST.json'))['checks']))"); do
   s=$(date +%s.%N)
   out=$(python3 -m hv.run $id --tier $TIER 2>&1); rc=$?
